@@ -83,8 +83,9 @@ class Gen:
 
     ADMON = ["note", "warning", "tip", "important", "attention", "caution", "danger", "error", "hint", "seealso"]
 
-    def __init__(self, rng, blocks=None, inlines=None, max_depth=4, hr_in_container=False, heading_in_container=True, prefix="mk"):
+    def __init__(self, rng, blocks=None, inlines=None, max_depth=4, hr_in_container=False, heading_in_container=True, prefix="mk", exotic=False):
         self.r = rng
+        self.exotic = exotic  # words may contain characters that str.splitlines() treats as line ends, astral and zero-width characters
         self.blocks = list(blocks if blocks is not None else self.BLOCKS_STATIC + self.BLOCKS_DYNAMIC)
         self.inlines = list(inlines if inlines is not None else self.INLINES_STATIC + self.INLINES_DYNAMIC)
         self.max_depth = max_depth
@@ -103,6 +104,8 @@ class Gen:
 
     def words(self, lo=0, hi=3):
         W = ["alpha", "beta", "gamma", "delta", "x", "y1", "Zed", "über", "naïve", "a.b", "c,d", "e;f", "it's", '"q"', "1", "42"]
+        if self.exotic and self.r.random() < 0.25:
+            W = W + ["ff\x0cfeed", "ls\u2028sep", "nel\x85x", "nb\u00a0sp", "zw\u200bsp", "\U0001F600", "fs\x1cx", "vt\x0bx", "ps\u2029x"]
         return " ".join(self.r.choice(W) for _ in range(self.r.randint(lo, hi)))
 
     def inline(self, depth=0):
